@@ -189,6 +189,13 @@ type runner struct {
 	start            time.Time
 	sampleEvery      int64
 	known            []KnownEntry
+	lastClock        time.Time
+}
+
+// checkDeadline reads the clock (at most every few cases) and reports whether the internal deadline has passed.
+func (r *runner) checkDeadline() bool {
+	r.lastClock = time.Now()
+	return r.lastClock.After(r.deadline)
 }
 
 // KnownEntry is one line of /verif/known_findings.jsonl with status "known".
@@ -412,7 +419,7 @@ func (r *runner) doCase(group, key string, run func(t *T)) {
 	} else if i%r.nshard != r.shard {
 		return
 	}
-	if !r.deadline.IsZero() && i&63 == 0 && time.Now().After(r.deadline) {
+	if !r.deadline.IsZero() && (r.res.Evaluations&15 == 0 || time.Since(r.lastClock) > time.Second) && r.checkDeadline() {
 		r.stopped = true
 		r.res.Complete = false
 		r.res.StoppedAt = fmt.Sprintf("%s/%s (case index %d)", group, key, i)
